@@ -547,26 +547,22 @@ pub fn check(case: &Case, st: &mut Stats) -> Result<(), String> {
     let spec = &case.committee;
     let c = spec.build();
     let (gh, ep, sch) = (c.gh(), c.epoch, &c.schedule);
-    let (kind, expect, got): (&str, bool, Result<(), String>) = match &case.obj {
-        Obj::Commit(q) => (
-            "commit_qc",
-            q.valid(spec),
-            q.build(&c).verify(gh, ep, sch).map_err(|e| format!("{e:#}")),
-        ),
+    type VerifyIn<'a> = Box<dyn 'a + Fn(validator::GenesisHash, validator::EpochNumber, &validator::Schedule) -> Result<(), String>>;
+    let (kind, expect, verify_in): (&str, bool, VerifyIn) = match &case.obj {
+        Obj::Commit(q) => {
+            let real = q.build(&c);
+            ("commit_qc", q.valid(spec), Box::new(move |g, e, s| real.verify(g, e, s).map_err(|e| format!("{e:#}"))))
+        }
         Obj::Timeout(q) => {
             let Some(real) = q.build(&c) else {
                 st.class("discarded_colliding_groups");
                 return Ok(());
             };
-            ("timeout_qc", q.valid(spec, &c), real.verify(gh, ep, sch).map_err(|e| format!("{e:#}")))
+            ("timeout_qc", q.valid(spec, &c), Box::new(move |g, e, s| real.verify(g, e, s).map_err(|e| format!("{e:#}"))))
         }
         Obj::Block { qc, payload } => {
             let b = v2::FinalBlock { payload: certs::payload(*payload), justification: qc.build(&c) };
-            (
-                "final_block",
-                qc.valid(spec) && *payload == qc.vote.payload,
-                b.verify(gh, ep, sch).map_err(|e| format!("{e:#}")),
-            )
+            ("final_block", qc.valid(spec) && *payload == qc.vote.payload, Box::new(move |g, e, s| b.verify(g, e, s).map_err(|e| format!("{e:#}"))))
         }
         Obj::Proposal { payload, just } => {
             let Some((j, v)) = build_just(just, spec, &c) else {
@@ -574,7 +570,7 @@ pub fn check(case: &Case, st: &mut Stats) -> Result<(), String> {
                 return Ok(());
             };
             let p = v2::LeaderProposal { proposal_payload: payload.map(certs::payload), justification: j };
-            ("leader_proposal", v, p.verify(gh, ep, sch).map_err(|e| format!("{e:#}")))
+            ("leader_proposal", v, Box::new(move |g, e, s| p.verify(g, e, s).map_err(|e| format!("{e:#}"))))
         }
         Obj::NewView { just } => {
             let Some((j, v)) = build_just(just, spec, &c) else {
@@ -582,14 +578,39 @@ pub fn check(case: &Case, st: &mut Stats) -> Result<(), String> {
                 return Ok(());
             };
             let p = v2::ReplicaNewView { justification: j };
-            ("replica_new_view", v, p.verify(gh, ep, sch).map_err(|e| format!("{e:#}")))
+            ("replica_new_view", v, Box::new(move |g, e, s| p.verify(g, e, s).map_err(|e| format!("{e:#}"))))
         }
-        Obj::TimeoutMsg(m) => (
-            "replica_timeout",
-            m.valid(spec),
-            m.build(&c).verify(gh, ep, sch).map_err(|e| format!("{e:#}")),
-        ),
+        Obj::TimeoutMsg(m) => {
+            let real = m.build(&c);
+            ("replica_timeout", m.valid(spec), Box::new(move |g, e, s| real.verify(g, e, s).map_err(|e| format!("{e:#}"))))
+        }
     };
+    let got = verify_in(gh, ep, sch);
+    // the verdict belongs to the context: the very object that has just been accepted for this chain, epoch and
+    // committee must be refused for another chain, for another epoch, and by a committee with other keys; and it is
+    // accepted again when asked again in its own context
+    if expect && got.is_ok() {
+        let other_committee = {
+            let mut o = spec.clone();
+            o.key_offset = if o.key_offset + o.n() < gen::POOL { o.key_offset + 1 } else { o.key_offset - 1 };
+            o.build()
+        };
+        let foreign = c.foreign_genesis().hash();
+        for (what, r) in [
+            ("another chain (genesis hash)", verify_in(foreign, ep, sch)),
+            ("the next epoch", verify_in(gh, validator::EpochNumber(ep.0 + 1), sch)),
+            ("a committee with other keys", verify_in(gh, ep, &other_committee.schedule)),
+        ] {
+            // a timeout vote without a nested certificate carries no signature of its own (that is in the envelope)
+            if r.is_ok() && !(kind == "replica_timeout" && what.starts_with("a committee")) {
+                return Err(format!("{kind}: accepted in its own context and then, unchanged, also for {what}"));
+            }
+        }
+        if let Err(e) = verify_in(gh, ep, sch) {
+            return Err(format!("{kind}: accepted, then refused when verified again in the same context ({e})"));
+        }
+        st.class("verified_in_four_contexts");
+    }
     st.class(&format!("kind={kind}"));
     st.class(&format!("corruption={}", case.corruption));
     st.class(&format!("signers={}", case.signers_class));
